@@ -40,14 +40,19 @@ structure Stats where
 
 def nanosPerSec : Int := 1000000000
 
-/-- `IndexEntry::metadata_from`, time part: `mtime.as_second()` and
-`mtime.subsec_nanosecond().try_into::<u32>().unwrap()`.  jiff truncates toward zero and
-gives the fraction the sign of the timestamp, so a pre-epoch time with a fraction makes the
-conversion to `u32` fail: `none` = that `unwrap` panics. -/
-def mtimeToIndex (tNs : Int) : Option (Int × Nat) :=
+/-- `IndexEntry::metadata_from`, time part, as the code was before the repair of D3:
+`mtime.as_second()` and `mtime.subsec_nanosecond().try_into::<u32>().unwrap()`.  jiff truncates
+toward zero and gives the fraction the sign of the timestamp, so a pre-epoch time with a
+fraction made the conversion to `u32` fail: `none` = that `unwrap` panics. -/
+def mtimeToIndexTruncating (tNs : Int) : Option (Int × Nat) :=
   let sec := tNs.tdiv nanosPerSec
   let sub := tNs.tmod nanosPerSec
   if sub < 0 then none else some (sec, sub.toNat)
+
+/-- `IndexEntry::metadata_from`, time part (repaired): whole seconds rounded down, so the
+fraction is never negative and the conversion to `u32` cannot fail. -/
+def mtimeToIndex (tNs : Int) : Option (Int × Nat) :=
+  some (tNs.fdiv nanosPerSec, (tNs.fmod nanosPerSec).toNat)
 
 /-- `IndexEntry::mtime()` as nanoseconds since the epoch: `Timestamp::new(mtime, nanos as i32)`.
 `none` = `try_into::<i32>().unwrap()` or the range `expect` panics. -/
